@@ -2,6 +2,7 @@ import Litep2pVerif.Proofs.Noise.Transport
 import Litep2pVerif.Proofs.Noise.Align
 import Litep2pVerif.Proofs.Noise.Teardown
 import Litep2pVerif.Generated.Consts
+import Litep2pVerif.Proofs.Node.Wiring
 /-!
 # C02 — Noise transport delivers the exact byte stream or fails
 
@@ -418,3 +419,46 @@ example :
 #print axioms write_pending_registered
 
 end Litep2pVerif.Props.C02
+
+/-! ## Wiring — the Noise buffer sizes of the TCP transport configuration
+
+Over the wiring model `Model/Node/Wiring.lean` (`Node.new c` = `Litep2p::new(ConfigBuilder…build())`, `notes` / `tcpHeld` =
+what the constructed protocol objects / the TCP transport hold, `protocolCodec` = `ProtocolSet::protocol_codec`), tied to
+the real code by the `node` area: real nodes built through the public API print what the CONSTRUCTED objects hold and what
+a connection's `ProtocolSet` answers for every main and fallback name; the driver prints the model's; compared exactly. -/
+namespace Litep2pVerif.Props.C02.Wiring
+open Litep2pVerif Litep2pVerif.Node
+
+/-- Kademlia setter calls of the sample: a later call overrides an earlier one; zero bounds. -/
+def sampleSets : List KadSet := [.maxRecords 5, .replication 3, .maxRecords 0, .maxProviderKeys 0, .validationMode false]
+
+/-- A configuration with fallback names, zero store bounds and non-default transport settings (non-vacuity examples). -/
+def sample : Config :=
+  { keepAliveMs := some 600, listen := [1],
+    notif := [{ name := "/n/new", max := 32, handshake := "01", fallback := ["/n/a"], mode := 'a', sync := some 7, async := none,
+                dial := some false }],
+    rr := [{ name := "/r/new", max := 256, timeoutMs := 800, fallback := ["/r/a", "/r/b"], maxInbound := some 3 }],
+    user := [⟨"/u/a", .identity 8⟩],
+    kad := [{ names := ["/k/2", "/k/1"], max := some 2048,
+              sets := sampleSets }],
+    ping := some 1, identify := true, bitswap := true, maxParallelDials := some 0,
+    tcpSets := [.readAhead 3, .parallelDials 7, .writeBuffer 4] }
+
+/-- The TCP transport is constructed with the Noise read-ahead frame count and write buffer size of the user's
+`tcp::config::Config` (a value set last is the value held; the crate defaults when nothing was set): the sizes every
+connection's `NoiseSocket` is built with. -/
+theorem noise_config_reaches_transport (c : Config) :
+    (∀ sets n, c.tcpSets = sets ++ [.readAhead n] → (tcpHeld (build c)).readAhead = n) ∧
+    (∀ sets n, c.tcpSets = sets ++ [.writeBuffer n] → (tcpHeld (build c)).writeBuffer = n) ∧
+    (c.tcpSets = [] → (tcpHeld (build c)).readAhead = Consts.NODE_NOISE_READ_AHEAD ∧
+      (tcpHeld (build c)).writeBuffer = Consts.NODE_NOISE_WRITE_BUFFER) := by
+  refine ⟨fun sets n h => ?_, fun sets n h => ?_, fun h => ?_⟩
+  · rw [tcpHeld_append (build c) sets _ h]; rfl
+  · rw [tcpHeld_append (build c) sets _ h]; rfl
+  · simp [tcpHeld, build, h]
+
+example : (tcpHeld (build sample)).readAhead = 3 ∧ (tcpHeld (build sample)).writeBuffer = 4 := by decide
+
+end Litep2pVerif.Props.C02.Wiring
+
+#print axioms Litep2pVerif.Props.C02.Wiring.noise_config_reaches_transport
